@@ -311,7 +311,8 @@ def make_cases(chk):
 
     def add(ft, ref, l10n, stream, expect=None):
         cases.append({"ft": ft, "ref": ref, "l10n": l10n, "stream": stream, "expect": expect,
-                      "filter": rng.random() < 0.25})
+                      "filter": rng.random() < 0.25,
+                      "extra": ["android-dtd"] if ft == "dtd" and rng.random() < 0.3 else None})
 
     n_struct, n_mut, n_raw = chk.n((400, 850, 350), (5000, 14000, 7000))
     for i in range(n_struct):
@@ -428,8 +429,9 @@ def guarded(fn, seconds):
         except BaseException as e:  # noqa: every way of not producing a report is an outcome
             signal.setitimer(signal.ITIMER_REAL, 0)
             tb = traceback.extract_tb(e.__traceback__)
-            frames = [[os.path.basename(f.filename), f.name, (f.line or "")[:120]] for f in tb[-6:]]
-            return {"kind": "exc", "type": type(e).__name__, "msg": str(e)[:300], "tb": frames}
+            frames = [[os.path.basename(f.filename), f.name, (f.line or "")[:120]] for f in tb]
+            return {"kind": "exc", "type": type(e).__name__, "msg": str(e)[:300], "tb": frames[-6:],
+                    "head": frames[:6]}
     finally:
         signal.setitimer(signal.ITIMER_REAL, 0)
         signal.signal(signal.SIGALRM, old)
@@ -480,7 +482,8 @@ def observe(case, tmp, seconds=5.0):
     def op_compare(merge):
         def go():
             cc = comparer()
-            rv = cc.compare(File(refp, name), File(l10np, name, locale="de"), mergep if merge else None)
+            rv = cc.compare(File(refp, name), File(l10np, name, locale="de"), mergep if merge else None,
+                            extra_tests=case.get("extra"))
             out = report(cc)
             out["rv"] = typed(rv)
             out["merged"] = os.path.isfile(mergep)
@@ -505,17 +508,17 @@ def observe(case, tmp, seconds=5.0):
         return {"results": [typed(r) if not isinstance(r, dict) else
                             ["dict", [[typed(k), typed(v)] for k, v in r.items()]] for r in res]}
 
-    def op_parse():
-        """the parse of both sides, for the oracle's expected encoding warnings"""
-        if not P.hasParser(name):
-            return {"ref": None, "l10n": None}
-        p = P.getParser(name)
-        out = {}
-        for side, path in (("ref", refp), ("l10n", l10np)):
+    def op_parse(side, path):
+        """the parse of one side, for the oracle's expected encoding warnings and the skeleton"""
+        def go():
+            if not P.hasParser(name):
+                return {"entries": None}
+            p = P.getParser(name)
             p.readFile(path)
             ents = list(p.parse())
-            out[side] = [[typed(e.key), isinstance(e, P.Junk), e.all.count(FFFD), str(e.key)] for e in ents]
-        return out
+            return {"entries": [[typed(e.key), isinstance(e, P.Junk), e.all.count(FFFD), str(e.key)]
+                                for e in ents]}
+        return go
 
     obs = {"compare": guarded(op_compare(False), seconds)}
     os.makedirs(os.path.join(tmp, "merge"), exist_ok=True)
@@ -525,18 +528,19 @@ def observe(case, tmp, seconds=5.0):
     shutil.rmtree(os.path.join(tmp, "merge"), ignore_errors=True)
     obs["remove"] = guarded(op_remove, seconds)
     obs["lint"] = guarded(op_lint, seconds)
-    obs["parse"] = guarded(op_parse, seconds)
+    obs["parse_ref"] = guarded(op_parse("ref", refp), seconds)
+    obs["parse_l10n"] = guarded(op_parse("l10n", l10np), seconds)
     return obs
 
 
 def enc_case(c):
     return {"ft": c["ft"], "ref": c["ref"].decode("latin-1"), "l10n": c["l10n"].decode("latin-1"),
-            "filter": bool(c.get("filter"))}
+            "filter": bool(c.get("filter")), "extra": c.get("extra")}
 
 
 def dec_case(c):
     return {"ft": c["ft"], "ref": c["ref"].encode("latin-1"), "l10n": c["l10n"].encode("latin-1"),
-            "filter": c.get("filter", False)}
+            "filter": c.get("filter", False), "extra": c.get("extra")}
 
 
 def worker_main(jobfile, start, seconds):
@@ -671,6 +675,15 @@ def key_text(tv):
     return None
 
 
+def position_signature(ft, low):
+    if low < 0:
+        return ft + "-position-negative"
+    if ft == "dtd":
+        # DTDEntityMixin.value_position((0, col)): line - 1, column col (0 for the checker's (0, 0))
+        return "dtd-whole-value-position-line-minus-one"
+    return ft + "-position-zero"
+
+
 def judge_report(ft, rep, keytexts, where):
     """shape of one report; -> list of (signature, detail)"""
     bad = []
@@ -696,7 +709,7 @@ def judge_report(ft, rep, keytexts, where):
                         m = POS_TAIL.search(v[1][:-len(suffix)])
                         if m and (int(m.group(1)) < minpos or int(m.group(2)) < minpos):
                             low = min(int(m.group(1)), int(m.group(2)))
-                            bad.append(("%s-position-%s" % (ft, "negative" if low < 0 else "zero"),
+                            bad.append((position_signature(ft, low),
                                         {"where": where, "message": v[1]}))
                             break
             elif cat in ("missingEntity", "obsoleteEntity"):
@@ -722,7 +735,7 @@ def messages(rep, cat):
 
 def expected_fffd(parse):
     """{key text: expected number of encoding warnings} from the parse of both sides"""
-    if not parse or parse.get("ref") is None:
+    if not parse:
         return {}
     refkeys = {json.dumps(k) for k, junk, _, _ in parse["ref"] if not junk}
     last = {}
@@ -761,10 +774,8 @@ def judge(case, obs):
     if "process" in obs:
         return [("%s-process-%s" % (ft, obs["process"]["kind"]), obs["process"])]
     bad = []
-    for op in OPS + ["parse"]:
+    for op in OPS:
         o = obs[op]
-        if op == "parse":
-            continue      # the harness's own use of the parser, not an entry point of the property
         if o["kind"] == "hang":
             bad.append(("%s-hang" % ft, {"entry_point": op}))
         elif o["kind"] == "exc":
@@ -772,11 +783,18 @@ def judge(case, obs):
             if (ft == "android" and op == "merge" and o["type"] == "TypeError"
                     and any("skips.sort" in fr[2] for fr in o["tb"])):
                 sig = "android-two-skips-typeerror"
+            elif o["type"] == "RecursionError" and ft in ("ftl", "android"):
+                sig = ft + "-deep-nesting-recursionerror"
+            elif ft == "properties" and o["type"] == "MemoryError" \
+                    and any(fr[1] == "getPrintfSpecs" for fr in o["tb"]):
+                sig = "properties-printf-ordinal-memoryerror"
+            elif ft == "properties" and o["type"] == "ValueError" and "integer string conversion" in o["msg"]:
+                sig = "properties-int-digit-limit-valueerror"
             bad.append((sig, {"entry_point": op, "exception": o["type"], "message": o["msg"],
                              "traceback": o["tb"]}))
-    parse = obs["parse"] if obs["parse"]["kind"] == "ok" else None
+    parse = parse_of(obs)
     keytexts = []
-    if parse and parse.get("l10n") is not None:
+    if parse:
         keytexts = sorted({t for side in ("ref", "l10n") for _, _, _, t in parse[side]}, key=len, reverse=True)
     for op in ("compare", "merge", "add", "remove"):
         if obs[op]["kind"] == "ok":
@@ -812,7 +830,7 @@ def judge(case, obs):
                 bad.append(("lint-position-not-integer", {"result": r}))
             elif d["lineno"][1] < minpos or d["column"][1] < minpos:
                 low = min(d["lineno"][1], d["column"][1])
-                bad.append(("%s-position-%s" % (ft, "negative" if low < 0 else "zero"),
+                bad.append((position_signature(ft, low),
                             {"where": "lint", "result": r}))
             if d["level"] not in (["str", "error"], ["str", "warning"]):
                 bad.append(("lint-level", {"result": r}))
@@ -821,9 +839,122 @@ def judge(case, obs):
     return bad
 
 
+def parse_of(obs):
+    """{"ref": entries, "l10n": entries} when both sides were parsed, else None"""
+    a, b = obs.get("parse_ref"), obs.get("parse_l10n")
+    if not a or not b or a["kind"] != "ok" or b["kind"] != "ok" or a["entries"] is None:
+        return None
+    return {"ref": a["entries"], "l10n": b["entries"]}
+
+
+def universal_decode(b):
+    """what open(errors="replace", newline=None) hands over (the decoder oracle, re-stated)"""
+    return b.decode("utf-8", "replace").replace("\r\n", "\n").replace("\r", "\n")
+
+
+def expat_rejects(text):
+    from xml.parsers import expat
+    try:
+        expat.ParserCreate(namespace_separator=" ").Parse(text.encode("utf-8"), True)
+        return False
+    except expat.ExpatError:
+        return True
+    except Exception:  # noqa: anything else says nothing about well-formedness
+        return False
+
+
+def judge_android_junk(case, obs):
+    """a strings.xml that expat rejects is one junk entry: one lint error, one 'Unparsed content'"""
+    if case["ft"] != "android" or "process" in obs or not expat_rejects(universal_decode(case["l10n"])):
+        return []
+    bad = []
+    pl = obs["parse_l10n"]
+    if pl["kind"] == "ok" and [e[1] for e in pl["entries"]] != [True]:
+        bad.append(("android-broken-xml-not-single-junk", {"entries": pl["entries"][:5]}))
+    if obs["lint"]["kind"] == "ok":
+        res = obs["lint"]["results"]
+        d = dict((k[1], v) for k, v in res[0][1]) if len(res) == 1 and res[0][0] == "dict" else {}
+        if len(res) != 1 or d.get("level") != ["str", "error"] \
+                or not str(d.get("message", ["", ""])[1]).startswith("Unparsed content"):
+            bad.append(("android-broken-xml-lint", {"results": res[:3]}))
+    if obs["compare"]["kind"] == "ok" and not any(
+            m.startswith('Unparsed content "') for m in messages(obs["compare"], "error")):
+        bad.append(("android-broken-xml-not-reported", {"details": obs["compare"]["details"]}))
+    return bad
+
+
+def skeleton_rows(case, obs):
+    """(model request, implementation class) per entry point, from one ROBUST observation.
+    classes: 0 no comparison, 1 one-error report, 2 the body ran, 3 the exception escaped"""
+    if "process" in obs:
+        return []
+    pr, pl = obs["parse_ref"], obs["parse_l10n"]
+    if pr["kind"] == "hang" or pl["kind"] == "hang":
+        return []
+    hp = case["ft"] != "unknown"
+    pr_ok, pl_ok = pr["kind"] == "ok", pl["kind"] == "ok"
+    rows = []
+
+    def has_error(rep, msg):
+        return msg in messages(rep, "error")
+    for op in ("compare", "merge"):
+        o = obs[op]
+        if o["kind"] == "hang":
+            continue
+        if o["kind"] == "exc":
+            # raised by the parse of the reference, or later (then the body was reached)
+            cls = 3 if any("ref_entities = p.parse()" in fr[2] for fr in o["head"]) else 2
+        elif not hp:
+            cls = 0 if not o["details"] and not o["summary"] else 2
+        elif not pl_ok and pr_ok:
+            only = sum(len(e) for _, e in o["details"]) == 1 and has_error(o, pl["msg"])
+            cls = 1 if only else 2
+        else:
+            cls = 2
+        rows.append(((2, [hp, True, pr_ok, True, pl_ok]), cls, op))
+    o = obs["add"]
+    if o["kind"] != "hang":
+        if o["kind"] == "exc":
+            cls = 3
+        elif not hp:
+            cls = 0
+        elif not pr_ok:
+            cls = 1 if has_error(o, pr["msg"]) else 2
+        else:
+            cls = 2 if not messages(o, "error") else 1
+        rows.append(((3, [hp, True, pr_ok]), cls, "add"))
+    o = obs["lint"]
+    if hp and o["kind"] != "hang":
+        rows.append(((4, [True, True, pr_ok, True, pl_ok]), 3 if o["kind"] == "exc" else 2, "lint"))
+    return rows
+
+
+def skipsort_row(case, obs, keytexts):
+    """strings.xml: the skips of the merging run, counted on the report of the plain run"""
+    if case["ft"] != "android" or "process" in obs or obs["compare"]["kind"] != "ok":
+        return None
+    m = obs["merge"]
+    if m["kind"] == "ok":
+        impl = [0, []]
+    elif m["kind"] == "exc" and m["type"] == "TypeError" and any("skips.sort" in fr[2] for fr in m["tb"]):
+        impl = [1, common.TAGS["TypeError"]]
+    else:
+        return None
+    n_results = n_junk = 0
+    for msg in messages(obs["compare"], "error"):
+        if msg.startswith('Unparsed content "'):
+            n_junk += 1
+            continue
+        for kt in keytexts:
+            if msg.endswith(" for " + kt) and POS_TAIL.search(msg[:-len(" for " + kt)]):
+                n_results += 1
+                break
+    return (5, [n_results, n_junk]), impl
+
+
 def nontrivial(obs):
-    p = obs.get("parse")
-    if not p or p["kind"] != "ok" or p.get("l10n") is None:
+    p = parse_of(obs)
+    if not p:
         return False
     refkeys = {json.dumps(k) for k, junk, _, _ in p["ref"] if not junk}
     return any(junk or json.dumps(k) in refkeys for k, junk, _, _ in p["l10n"])
@@ -865,7 +996,7 @@ def impl_encoding(text):
     from compare_locales.checks.base import Checker, EntityPos
     out = []
     for tp, pos, msg, cat in Checker(None).check(None, _Ent(text, "k")):
-        out.append([{"warning": 0, "error": 1}[tp], int(isinstance(pos, EntityPos)), int(pos),
+        out.append([{"warning": 0, "error": 1}[tp], [int(isinstance(pos, EntityPos)), int(pos)],
                     canon(msg), canon(cat)])
     return out
 
@@ -881,7 +1012,7 @@ def suite_encoding(chk, model):
         chk.count(("enc", t))
         # oracle: one warning per occurrence, at its offset
         want = [i for i, c in enumerate(t) if c == FFFD]
-        if [g[2] for g in got] != want or any(g[0] != 0 or g[1] != 1 for g in got):
+        if [g[1][1] for g in got] != want or any(g[0] != 0 or g[1][0] != 1 for g in got):
             chk.fail("encoding-finditer", {"text": t}, {"got": got, "expected_offsets": want})
     if model:
         outs = model.call([(0, [canon(t), canon("k")]) for t in texts])
@@ -906,7 +1037,8 @@ def impl_format(ft, ref, l10n):
         cc = ContentComparer()
         cc.observers.append(Observer())
         cc.compare(File(refp, name), File(l10np, name, locale="de"), None)
-        warns = [m for m in messages({"details": flatten_details(cc.observers.toJSON()["details"])}, "warning")
+        flat = {"details": flatten_details(cc.observers.toJSON()["details"])}
+        warns = [[sev, m] for sev, cat in ((0, "warning"), (1, "error")) for m in messages(flat, cat)
                  if m.startswith(FFFD)]
         lint = [[r["level"], r["lineno"], r["column"], r["message"]]
                 for r in L10nLinter().lint_file(l10np, None, []) if r["message"].startswith(FFFD)]
@@ -922,7 +1054,8 @@ def impl_format(ft, ref, l10n):
 
         def wire(e):
             start = e.pre_comment.span[0] if getattr(e, "pre_comment", None) is not None else e.span[0]
-            return [start, e.span[0], e.span[1], list(e.key_span)]
+            return [start, e.span[0], e.span[1], list(e.key_span),
+                    [list(e.val_span)] if e.val_span is not None else []]
         shared = [wire(last[k]) for k in refkeys if k in last]
         every = [wire(e) for e in ents if not isinstance(e, P.Junk)]
         return warns, lint, shared, every
@@ -955,12 +1088,12 @@ def suite_format(chk, model):
     impl, reqs = [], []
     for ft, ref, l10n in cases:
         warns, lint, shared, every = impl_format(ft, ref, l10n)
-        impl.append([0, [[canon(w) for w in warns],
+        impl.append([0, [[[sev, canon(w)] for sev, w in warns],
                          [[{"warning": 0, "error": 1}[lv], ln, col, canon(msg)] for lv, ln, col, msg in lint]]])
         reqs.append((1, [canon(l10n), shared, every]))
         chk.count(("fmt", ft, ref, l10n))
     chk.sample({"suite": "FORMAT", "type": cases[3][0], "ref": cases[3][1], "l10n": cases[3][2],
-                "impl": [common.l2s(w) for w in impl[3][1][0]]})
+                "impl": [common.l2s(w) for _, w in impl[3][1][0]]})
     if model:
         outs = model.call(reqs)
         chk.correspond("FORMAT", [list(c) for c in cases], impl, outs)
@@ -1008,7 +1141,7 @@ def suite_decode(chk):
 def describe(case):
     return {"type": case["ft"], "file": FILE[case["ft"]], "stream": case["stream"],
             "ref_bytes": case["ref"].decode("latin-1"), "l10n_bytes": case["l10n"].decode("latin-1"),
-            "filter": bool(case.get("filter")), "expect": case.get("expect"),
+            "filter": bool(case.get("filter")), "extra": case.get("extra"), "expect": case.get("expect"),
             "encoding_of_bytes": "latin-1 (one character per byte)"}
 
 
@@ -1026,7 +1159,7 @@ def confirm_hangs(cases, results, pool):
     """a hang under load may be a slow machine: re-run such cases alone with a long budget"""
     idx = [i for i, o in enumerate(results)
            if o is None or "process" in o and o["process"]["kind"] == "hang"
-           or "process" not in o and any(o[op]["kind"] == "hang" for op in OPS + ["parse"])]
+           or "process" not in o and any(o[op]["kind"] == "hang" for op in OPS + ["parse_ref", "parse_l10n"])]
     if not idx:
         return 0
     slow = Pool(min(4, len(idx)), soft=20.0, hard=90.0)
@@ -1060,6 +1193,7 @@ def run(chk, runner_ok):
     rechecked = confirm_hangs(cases, results, pool)
     wall = time.time() - t0
     sampled = 0
+    skel, skips = [], []
     for case, obs in zip(cases, results):
         key = (case["ft"], case["ref"], case["l10n"])
         chk.evaluations += 1
@@ -1077,8 +1211,17 @@ def run(chk, runner_ok):
             chk.hist("compare_detail_entries", min(n, 10))
             chk.hist("encoding_warnings", min(sum(m.startswith(FFFD) for m in messages(obs["compare"], "warning")), 6))
             chk.hist("lint_results", min(len(obs["lint"].get("results", [])), 10))
-        for sig, detail in judge(case, obs):
+        for sig, detail in judge(case, obs) + judge_android_junk(case, obs):
             chk.fail(sig, describe(case), detail)
+        for req, cls, op in skeleton_rows(case, obs):
+            skel.append((req, cls, {"entry_point": op, **describe(case)} if cls != 2 else op))
+            chk.hist("skeleton_class", "%s:%d" % (op, cls))
+        parse = parse_of(obs)
+        row = skipsort_row(case, obs, sorted({t for side in ("ref", "l10n") for _, _, _, t in parse[side]},
+                                             key=len, reverse=True)) if parse else None
+        if row:
+            skips.append((row[0], row[1], describe(case)))
+            chk.hist("android_skips", "%d results, %d junk" % (min(row[0][1][0], 3), min(row[0][1][1], 3)))
         if sampled < 3 and case["stream"] == "mutated" and "process" not in obs \
                 and obs["compare"]["kind"] == "ok" and obs["compare"]["details"]:
             sampled += 1
@@ -1089,6 +1232,11 @@ def run(chk, runner_ok):
     chk.notes.append(f"ROBUST: {len(cases)} pairs x 5 entry points in {pool.spawned} worker processes "
                      f"({nw} at a time), {wall:.1f}s; {rechecked} case(s) re-run alone after a watchdog hit; "
                      f"soft watchdog {pool.soft}s per entry point, hard {pool.hard}s per case")
+    if model:
+        outs = model.call([r for r, _, _ in skel])
+        chk.correspond("SKELETON", [d for _, _, d in skel], [c for _, c, _ in skel], outs)
+        outs = model.call([r for r, _, _ in skips])
+        chk.correspond("SKIPSORT", [d for _, _, d in skips], [i for _, i, _ in skips], outs)
     suite_decode(chk)
     suite_encoding(chk, model)
     suite_format(chk, model)
